@@ -8,6 +8,8 @@ Line protocol for the C15 model (one s-expression in, one out):
   (checktrace CNF N0 PROOFS)    -> T | F
   (checkproofs CNF PROOFS)      -> T | F             (CNF = the input; learned clauses are rebuilt)
   (tseitin FORM (n ...) (FORM ...)) -> CNF | none   (extra used names; the subterm numbering)
+  (macro-resolve C1 C2)         -> CLAUSE | none     (logic.resolution on two clauses)
+  (zreplay CNF ((i ...) ...))   -> CNF | none        (replay loop of zChaff.solve / proofrec.solve_cnf)
   (tseitin-hyps FORM (n ...) (FORM ...)) -> (FORM ...) | none   (hypotheses of encode's theorem)
   (tseitin-unfixed FORM (FORM ...)) -> CNF | none   (naming x1..xn regardless of the formula)
 FORM = (atom n) | tt | ff | (not F) | (and F F) | (or F F) | (imp F F) | (iff F F)
@@ -94,6 +96,20 @@ def handle (line : String) : String :=
       | some c => toString (cnfTo c)
       | none => "none"
     | _, _, _ => "bad-op"
+  | some (.list [.atom "macro-resolve", c1, c2]) =>
+    match clauseOf c1, clauseOf c2 with
+    | some a, some b =>
+      match macroResolve a b with
+      | some r => toString (clauseTo r)
+      | none => "none"
+    | _, _ => "bad-op"
+  | some (.list [.atom "zreplay", cnf, ps]) =>
+    match cnfOf cnf, (do (← ps.toList?).mapM natsOf) with
+    | some c, some p =>
+      match zReplay c p with
+      | some r => toString (cnfTo r)
+      | none => "none"
+    | _, _ => "bad-op"
   | some (.list [.atom "tseitin-hyps", f, extra, order]) =>
     match formOf f, natsOf extra, (do (← order.toList?).mapM formOf) with
     | some f, some e, some o =>
